@@ -26,6 +26,9 @@ type C07Params struct {
 	Cleartext  int      `json:"cleartext"` // forged unprotected application_data records injected (both directions)
 	MarkerSeed uint64   `json:"marker_seed"`
 	MTU        int      `json:"mtu,omitempty"` // 0 = default; tiny values fragment even the Finished message
+	// Restore (DTLS 1.2): "c" or "s": that side's state is serialised, and the exporter is also asked
+	// of a connection restored from the bytes - it must hand out the same secret-dependent value
+	Restore string `json:"restore,omitempty"`
 }
 
 func c07Counts(tier string) (int, int) {
@@ -47,6 +50,9 @@ func c07Gen(r *rand.Rand, tier string, idx int) any {
 	p.Cleartext = []int{0, 2, 6}[r.IntN(3)]
 	if c, _ := dataCfgByName(p.Cfg); c.C.MaxVer == 12 && r.IntN(5) == 0 {
 		p.MTU = []int{8, 9, 11, 12, 13, 24, 48, 100}[r.IntN(8)]
+	}
+	if c, _ := dataCfgByName(p.Cfg); c.C.MaxVer == 12 && !p.CloseRace && r.IntN(3) == 0 {
+		p.Restore = []string{"c", "s"}[r.IntN(2)]
 	}
 	if r.IntN(3) != 0 {
 		p.Rules = NetRules{DropPm: 50 + r.IntN(300), DupPm: r.IntN(100), HoldPm: r.IntN(100), FaultsUntilIdx: 3 + r.IntN(14),
@@ -221,6 +227,32 @@ func c07Run(rc *RunCtx, params any) {
 			ekm, _ = st.ExportKeyingMaterial("EXTRACTOR-dtls_srtp", nil, 60)
 		}
 	}
+	var restoredEKM []byte
+	if established && p.Restore != "" && cfg.C.MaxVer == 12 {
+		if st, okst := pair.ConnOf(p.Restore).ConnectionState(); okst {
+			if raw, merr := st.MarshalBinary(); merr == nil {
+				var st2 dtls.State
+				if st2.UnmarshalBinary(raw) == nil {
+					self, peerAddr, sock := pair.CAddr, pair.SAddr, pair.CSock
+					if p.Restore == "s" {
+						self, peerAddr, sock = pair.SAddr, pair.CAddr, pair.SSock
+					}
+					sock.Sever()
+					if restored, rerr := dtls.ResumeWithOptions(&st2, n.Rebind(p.Restore+"2", self), peerAddr, pair.Env.Shared[p.Restore]...); rerr == nil {
+						// the restored connection's own state is built by its (local, no I/O) Handshake
+						hdone := false
+						s.Go("restored-handshake", func() { _ = restored.Handshake(); hdone = true })
+						s.Run(func() bool { return hdone }, 10*time.Second)
+						if st3, ok3 := restored.ConnectionState(); ok3 {
+							restoredEKM, _ = st3.ExportKeyingMaterial("EXTRACTOR-dtls_srtp", nil, 60)
+							s.Probe("exporter-asked-of-restored-connection")
+						}
+						s.Go("restored-close", func() { _ = restored.Close() })
+					}
+				}
+			}
+		}
+	}
 	pair.Teardown()
 	// ---- (b') nothing forged in clear was delivered ----
 	for _, rd := range []*Reader{rdC, rdS} {
@@ -244,7 +276,7 @@ func c07Run(rc *RunCtx, params any) {
 	col := NewHsCollector()
 	for _, em := range n.Emits {
 		cid := len(cfg.S.CIDOf())
-		if em.Ep == "s" {
+		if em.Ep == "s" || em.Ep == "s2" { // "s2" / "c2": the connection restored from that side's state
 			cid = len(cfg.C.CIDOf())
 		}
 		col.Feed(em, cid)
@@ -332,6 +364,20 @@ func c07Run(rc *RunCtx, params any) {
 
 							return
 						}
+					}
+				}
+				if restoredEKM != nil {
+					for _, pub := range publicOnlyExporters("EXTRACTOR-dtls_srtp", cr, sr, len(ekm)) {
+						if bytes.Equal(pub, restoredEKM) {
+							rc.Violate("exporter-public:restored:"+protoTag(cfg.C, cfg.S), "ExportKeyingMaterial on a connection restored from serialised state equals a value computable from the cleartext hello randoms alone")
+
+							return
+						}
+					}
+					if !bytes.Equal(restoredEKM, ekm) {
+						rc.Violate("exporter-unstable:restored:"+protoTag(cfg.C, cfg.S), "ExportKeyingMaterial returned %x... on the original connection and %x... on the connection restored from its serialised state", ekm[:8], restoredEKM[:min(8, len(restoredEKM))])
+
+						return
 					}
 				}
 				for _, early := range earlyEKM {
